@@ -268,6 +268,107 @@ Proof.
       * right; eapply IHc; eauto.
 Qed.
 
+(* ... and every channel of the term is on some path *)
+Lemma chans_path_mut :
+  (forall f sh k, In k (form_chans f) -> exists pi, In pi (pnames sh f) /\ In (KC k) pi) /\
+  (forall b, (forall k, In k (brs_chans b) -> exists pi, In pi (pnames_bp b) /\ In (KC k) pi) /\
+             (forall sh k, In k (brs_chans b) -> exists pi, In pi (pnames_bc sh b) /\ In (KC k) pi)).
+Proof.
+  assert (Hpd : forall sh n k, pdes sh n = true -> ~ In k (name_chans n)).
+  { intros sh n k H. unfold pdes, initialized, name_chans in *. destruct (chan n); [discriminate|]. auto. }
+  apply form_branches_ind; simpl.
+  - intros a b c sh k H. eexists. split; [left; reflexivity|]. rewrite !in_app_iff in *. rewrite !uname_chan. tauto.
+  - intros p c fr f IH sh k H. apply in_app_iff in H. destruct (pdes sh fr) eqn:E.
+    + destruct H as [H|H]; [by destruct (Hpd _ _ _ E H)|]. destruct (IH (Some (ident c)) k H) as (pk & Hpk & Hk).
+      exists (rmv [p] pk). split; [apply in_map_iff; eauto|by apply rmv_chan].
+    + destruct H as [H|H].
+      * destruct (pnames_has sh f) as [pk Hpk]. exists (uname sh fr ++ rmv [p; c] pk).
+        split; [apply in_map_iff; eauto|]. apply in_app_iff. left. by apply uname_chan.
+      * destruct (IH sh k H) as (pk & Hpk & Hk). exists (uname sh fr ++ rmv [p; c] pk).
+        split; [apply in_map_iff; eauto|]. apply in_app_iff. right. by apply rmv_chan.
+  - intros a l c sh k H. eexists. split; [left; reflexivity|]. rewrite !in_app_iff in *. rewrite !uname_chan. tauto.
+  - intros fr b [IHp IHc] sh k H. apply in_app_iff in H. destruct (pdes sh fr) eqn:E.
+    + destruct H as [H|H]; [by destruct (Hpd _ _ _ E H)|]. destruct (IHp k H) as (pk & Hpk & Hk).
+      exists pk. split; [by apply in_ne|done].
+    + destruct H as [H|H].
+      * destruct (ne_has (pnames_bc sh b)) as [pk Hpk]. exists (uname sh fr ++ pk).
+        split; [apply in_map_iff; eauto|]. apply in_app_iff. left. by apply uname_chan.
+      * destruct (IHc sh k H) as (pk & Hpk & Hk). exists (uname sh fr ++ pk).
+        split; [apply in_map_iff; exists pk; split; [done|by apply in_ne]|]. apply in_app_iff. by right.
+  - intros x b IHb f IHf sh k H. apply in_app_iff in H as [H|H].
+    + destruct (IHb None k H) as (pb & Hpb & Hk). destruct (pnames_has sh f) as [pk Hpk].
+      exists (pb ++ rmv [x] pk). split; [apply in_crossk; exists pb, (rmv [x] pk); split; [done|split; [apply in_map_iff; eauto|done]]|].
+      apply in_app_iff. by left.
+    + destruct (IHf sh k H) as (pk & Hpk & Hk). destruct (pnames_has None b) as [pb Hpb].
+      exists (pb ++ rmv [x] pk). split; [apply in_crossk; exists pb, (rmv [x] pk); split; [done|split; [apply in_map_iff; eauto|done]]|].
+      apply in_app_iff. right. by apply rmv_chan.
+  - intros c sh k H. eexists. split; [left; reflexivity|]. by apply uname_chan.
+  - intros c f IH sh k H. apply in_app_iff in H as [H|H].
+    + destruct (pnames_has sh f) as [pk Hpk]. exists (uname sh c ++ pk). split; [apply in_map_iff; eauto|].
+      apply in_app_iff. left. by apply uname_chan.
+    + destruct (IH sh k H) as (pk & Hpk & Hk). exists (uname sh c ++ pk). split; [apply in_map_iff; eauto|].
+      apply in_app_iff. by right.
+  - intros a b d sh k H. eexists. split; [left; reflexivity|]. rewrite !in_app_iff in *. rewrite !uname_chan. tauto.
+  - intros x y fr f IH sh k H. apply in_app_iff in H as [H|H].
+    + destruct (pnames_has sh f) as [pk Hpk]. exists (uname sh fr ++ rmv [x; y] pk). split; [apply in_map_iff; eauto|].
+      apply in_app_iff. left. by apply uname_chan.
+    + destruct (IH sh k H) as (pk & Hpk & Hk). exists (uname sh fr ++ rmv [x; y] pk). split; [apply in_map_iff; eauto|].
+      apply in_app_iff. right. by apply rmv_chan.
+  - intros fn args pt sh k H. eexists. split; [left; reflexivity|]. apply in_flat_map in H as (a & Ha & H).
+    apply in_flat_map. exists a. split; auto. by apply uname_chan.
+  - intros a c sh k H. eexists. split; [left; reflexivity|]. rewrite !in_app_iff in *. rewrite !uname_chan. tauto.
+  - intros x fr f IH sh k H. apply in_app_iff in H. destruct (pdes sh fr) eqn:E.
+    + destruct H as [H|H]; [by destruct (Hpd _ _ _ E H)|]. apply IH; auto.
+    + destruct H as [H|H].
+      * destruct (pnames_has sh f) as [pk Hpk]. exists (uname sh fr ++ rmv [x] pk). split; [apply in_map_iff; eauto|].
+        apply in_app_iff. left. by apply uname_chan.
+      * destruct (IH sh k H) as (pk & Hpk & Hk). exists (uname sh fr ++ rmv [x] pk). split; [apply in_map_iff; eauto|].
+        apply in_app_iff. right. by apply rmv_chan.
+  - intros c f IH sh k H. apply in_app_iff in H as [H|H].
+    + destruct (pnames_has sh f) as [pk Hpk]. exists (uname sh c ++ pk). split; [apply in_map_iff; eauto|].
+      apply in_app_iff. left. by apply uname_chan.
+    + destruct (IH sh k H) as (pk & Hpk & Hk). exists (uname sh c ++ pk). split; [apply in_map_iff; eauto|].
+      apply in_app_iff. by right.
+  - intros l f IH sh k H. apply IH; auto.
+  - split; intros; contradiction.
+  - intros l p f IHf r [IHp IHc]. split.
+    + intros k H. apply in_app_iff in H as [H|H].
+      * destruct (IHf (Some (ident p)) k H) as (pk & Hpk & Hk). exists pk. split; [apply in_app_iff; by left|done].
+      * destruct (IHp k H) as (pk & Hpk & Hk). exists pk. split; [apply in_app_iff; by right|done].
+    + intros sh k H. apply in_app_iff in H as [H|H].
+      * destruct (IHf sh k H) as (pk & Hpk & Hk). exists (rmv [p] pk).
+        split; [apply in_app_iff; left; apply in_map_iff; eauto|by apply rmv_chan].
+      * destruct (IHc sh k H) as (pk & Hpk & Hk). exists pk. split; [apply in_app_iff; by right|done].
+Qed.
+
+Lemma NoDup_app_inv {A} (l1 l2 : list A) :
+  NoDup (l1 ++ l2) -> NoDup l1 /\ NoDup l2 /\ forall x, In x l1 -> In x l2 -> False.
+Proof.
+  induction l1 as [|a l1 IH]; simpl; intros H.
+  - split; [constructor|]. split; [exact H|]. intros x [].
+  - inversion H as [|? ? Hn Hd]; subst. destruct (IH Hd) as (H1 & H2 & H3). split; [|split; [exact H2|]].
+    + constructor; auto. intros Hin. apply Hn. apply in_app_iff. by left.
+    + intros x [<-|Hx] Hx2; [apply Hn; apply in_app_iff; by right|eauto].
+Qed.
+
+(* the channels among the keys *)
+Definition kcs (l : list key) : list cid := flat_map (fun q => match q with KC k => [k] | KV _ => [] end) l.
+Lemma kcs_app l1 l2 : kcs (l1 ++ l2) = kcs l1 ++ kcs l2.
+Proof. unfold kcs. apply flat_map_app. Qed.
+Lemma kcs_uname sh n : kcs (uname sh n) = name_chans n.
+Proof. unfold uname, name_chans. destruct (chan n); simpl; auto. by destruct (prov_ref sh n). Qed.
+Lemma in_kcs l k : In k (kcs l) <-> In (KC k) l.
+Proof.
+  unfold kcs. rewrite in_flat_map. split.
+  - intros ([k'|y] & H & Hk); simpl in Hk; [destruct Hk as [<-|[]]; auto|contradiction].
+  - intros H. exists (KC k). split; simpl; auto.
+Qed.
+Lemma NoDup_kcs l : NoDup l -> NoDup (kcs l).
+Proof.
+  induction 1 as [|q l Hq Hn IH]; simpl; [constructor|]. destruct q as [k|y]; simpl; auto.
+  constructor; auto. intros H. apply Hq. by apply in_kcs.
+Qed.
+
 Section Paths.
 Variable D : tenv.
 Variable F : list fundef.
